@@ -98,6 +98,16 @@ Definition set_asset_counts (x : acct) (assetparams assets : N) : acct :=
          (a_extrapages x) (a_appparams x) (a_applocals x) assetparams assets (a_boxes x)
          (a_boxbytes x) (a_lastprop x) (a_lasthb x) (a_votepk x) (a_selpk x) (a_sppk x)
          (a_votefirst x) (a_votelast x) (a_votekd x).
+Definition set_app_counts (x : acct) (su sb pages appparams applocals : N) : acct :=
+  mkAcct (a_status x) (a_algos x) (a_rbase x) (a_rewarded x) (a_auth x) (a_elig x) su sb
+         pages appparams applocals (a_assetparams x) (a_assets x) (a_boxes x)
+         (a_boxbytes x) (a_lastprop x) (a_lasthb x) (a_votepk x) (a_selpk x) (a_sppk x)
+         (a_votefirst x) (a_votelast x) (a_votekd x).
+Definition set_box_counts (x : acct) (boxes boxbytes : N) : acct :=
+  mkAcct (a_status x) (a_algos x) (a_rbase x) (a_rewarded x) (a_auth x) (a_elig x) (a_schema_u x) (a_schema_b x)
+         (a_extrapages x) (a_appparams x) (a_applocals x) (a_assetparams x) (a_assets x) boxes
+         boxbytes (a_lastprop x) (a_lasthb x) (a_votepk x) (a_selpk x) (a_sppk x)
+         (a_votefirst x) (a_votelast x) (a_votekd x).
 (* status / eligibility / voting data in one go (keyreg, ClearOnlineState, Suspend, recordProposal) *)
 Definition set_part (x : acct) (st : status) (elig : bool) (hb vpk spk sppk vf vl vkd : N) : acct :=
   mkAcct st (a_algos x) (a_rbase x) (a_rewarded x) (a_auth x) elig (a_schema_u x) (a_schema_b x)
@@ -140,7 +150,12 @@ Record params := mkParams {
   p_schemabytes : N;        (* SchemaBytesMinBalance *)
   p_lookback : N;           (* agreement.BalanceLookback(proto) *)
   p_maxexpired : N;         (* MaxProposedExpiredOnlineAccounts *)
-  p_closeamount : bool      (* EnableAssetCloseAmount *)
+  p_closeamount : bool;     (* EnableAssetCloseAmount *)
+  p_maxappscreated : N;     (* MaxAppsCreated *)
+  p_maxappsoptedin : N;     (* MaxAppsOptedIn *)
+  p_maxkeylen : N;          (* MaxAppKeyLen *)
+  p_maxboxsize : N;         (* MaxBoxSize *)
+  p_properpages : bool      (* EnableProperExtraPageAccounting *)
 }.
 
 (* ------------------------------------------------------------------ rewards, min balance *)
@@ -257,6 +272,31 @@ Arguments DNone {A}. Arguments DSome {A}. Arguments DDel {A}.
 (* one AssetResourceRecord of AccountDeltas: params and holding of (address, asset) *)
 Record ares := mkAres { r_params : delta aparams; r_holding : delta holding }.
 
+(* ------------------------------------------------------------------ applications *)
+(* basics.AppParams as far as apply/application.go reads it (programs are the harness's fixed
+   interpreter; Version / RejectVersion are not modelled) *)
+Record appparams := mkApp {
+  app_gs : N * N;          (* GlobalStateSchema (NumUint, NumByteSlice) *)
+  app_ls : N * N;          (* LocalStateSchema *)
+  app_pages : N;           (* ExtraProgramPages *)
+  app_sponsor : N          (* SizeSponsor, 0 = the creator *)
+}.
+
+(* one AppResourceRecord: params and local state (its Schema) of (address, app) *)
+Record appres := mkAppres { ar_params : delta appparams; ar_local : delta (N * N) }.
+
+(* ledger/eval/appcow.go storageDelta: action (1 remainAlloc, 2 alloc, 3 dealloc), the
+   key/value changes (key -> Some isBytes | None = deleted; values themselves are C23's
+   business), counts, maxCounts *)
+Record sdelta := mkSD { sd_action : N; sd_kv : list (N * option bool); sd_counts : N * N; sd_max : N * N }.
+
+(* the application account (basics.AppIndex.Address()): a hash; modelled as an injective map
+   into addresses no key pair owns *)
+Definition app_addr (i : N) : N := 1000000 + i.
+
+(* storagePtr (addr, aidx, global) as a pair key *)
+Definition skey (a i : N) (global : bool) : N * N := (a, 2 * i + (if global then 1 else 0)).
+
 (* ------------------------------------------------------------------ the overlay *)
 (* one roundCowState: mods.Accts (slice order = ModifiedAccounts order), mods.Txids
    (insertion order: Intra = position), mods.Txleases, txnCount, feesCollected *)
@@ -267,21 +307,34 @@ Record layer := mkLayer {
   l_txncount : N;
   l_fees : N;
   l_assets : list ((N * N) * ares);    (* mods.Accts.AssetResources, key (address, asset) *)
-  l_creat : list (N * option N)        (* mods.Creatables (assets): Some creator = created, None = deleted *)
+  l_creat : list (N * option N);       (* mods.Creatables (assets): Some creator = created, None = deleted *)
+  l_apps : list ((N * N) * appres);    (* mods.Accts.AppResources, key (address, app) *)
+  l_acreat : list (N * option N);      (* mods.Creatables (apps) *)
+  l_store : list ((N * N) * sdelta);   (* sdeltas, key [skey] *)
+  l_boxes : list ((N * N) * option N)  (* mods.KvMods for box keys (app, name): Some size | None = deleted *)
 }.
-Definition layer0 : layer := mkLayer [] [] [] 0 0 [] [].
+Definition layer0 : layer := mkLayer [] [] [] 0 0 [] [] [] [] [] [].
 
 (* field updaters: the only places (with [merge_layer]) that rebuild a layer *)
 Definition upd_accts (l : layer) (x : list (N * acct)) : layer :=
-  mkLayer x (l_txids l) (l_leases l) (l_txncount l) (l_fees l) (l_assets l) (l_creat l).
+  mkLayer x (l_txids l) (l_leases l) (l_txncount l) (l_fees l) (l_assets l) (l_creat l) (l_apps l) (l_acreat l) (l_store l) (l_boxes l).
 Definition upd_fees (l : layer) (x : N) : layer :=
-  mkLayer (l_accts l) (l_txids l) (l_leases l) (l_txncount l) x (l_assets l) (l_creat l).
+  mkLayer (l_accts l) (l_txids l) (l_leases l) (l_txncount l) x (l_assets l) (l_creat l) (l_apps l) (l_acreat l) (l_store l) (l_boxes l).
 Definition upd_tx (l : layer) (txids : list (N * N)) (leases : list ((N * N) * N)) (cnt : N) : layer :=
-  mkLayer (l_accts l) txids leases cnt (l_fees l) (l_assets l) (l_creat l).
+  mkLayer (l_accts l) txids leases cnt (l_fees l) (l_assets l) (l_creat l) (l_apps l) (l_acreat l) (l_store l) (l_boxes l).
 Definition upd_assets (l : layer) (x : list ((N * N) * ares)) : layer :=
-  mkLayer (l_accts l) (l_txids l) (l_leases l) (l_txncount l) (l_fees l) x (l_creat l).
+  mkLayer (l_accts l) (l_txids l) (l_leases l) (l_txncount l) (l_fees l) x (l_creat l) (l_apps l) (l_acreat l) (l_store l) (l_boxes l).
 Definition upd_creat (l : layer) (x : list (N * option N)) : layer :=
-  mkLayer (l_accts l) (l_txids l) (l_leases l) (l_txncount l) (l_fees l) (l_assets l) x.
+  mkLayer (l_accts l) (l_txids l) (l_leases l) (l_txncount l) (l_fees l) (l_assets l) x (l_apps l) (l_acreat l) (l_store l) (l_boxes l).
+Definition upd_apps (l : layer) (x : list ((N * N) * appres)) : layer :=
+  mkLayer (l_accts l) (l_txids l) (l_leases l) (l_txncount l) (l_fees l) (l_assets l) (l_creat l) x (l_acreat l) (l_store l) (l_boxes l).
+Definition upd_acreat (l : layer) (x : list (N * option N)) : layer :=
+  mkLayer (l_accts l) (l_txids l) (l_leases l) (l_txncount l) (l_fees l) (l_assets l) (l_creat l) (l_apps l) x (l_store l) (l_boxes l).
+Definition upd_store (l : layer) (x : list ((N * N) * sdelta)) : layer :=
+  mkLayer (l_accts l) (l_txids l) (l_leases l) (l_txncount l) (l_fees l) (l_assets l) (l_creat l) (l_apps l) (l_acreat l) x (l_boxes l).
+Definition upd_boxes (l : layer) (x : list ((N * N) * option N)) : layer :=
+  mkLayer (l_accts l) (l_txids l) (l_leases l) (l_txncount l) (l_fees l) (l_assets l) (l_creat l) (l_apps l) (l_acreat l) (l_store l) x.
+Definition upd_txncount (l : layer) (cnt : N) : layer := upd_tx l (l_txids l) (l_leases l) cnt.
 
 (* roundCowBase as far as the evaluator uses it: account table of the previous round, the
    transaction ids the ledger reports as already committed, previous TxnCounter *)
@@ -289,7 +342,10 @@ Record base := mkBase {
   b_accts : list (N * acct);
   b_txids : list N;
   b_counter : N;
-  b_assets : list ((N * N) * (option aparams * option holding))   (* LookupAsset *)
+  b_assets : list ((N * N) * (option aparams * option holding));  (* LookupAsset *)
+  b_apps : list ((N * N) * (option appparams * option (N * N)));   (* LookupApplication: params, local state schema *)
+  b_store : list ((N * N) * list (N * bool));                      (* GlobalState / LocalState.KeyValue: key -> isBytes, by [skey] *)
+  b_boxes : list ((N * N) * N)                                     (* LookupKv for box keys (app, name): size *)
 }.
 
 Record cow := mkCow {
@@ -356,6 +412,36 @@ Fixpoint merge_creat (into from : list (N * option N)) : list (N * option N) :=
   | (k, v) :: r => merge_creat (aupsert k v into) r
   end.
 
+Fixpoint merge_apps (into from : list ((N * N) * appres)) : list ((N * N) * appres) :=
+  match from with
+  | [] => into
+  | (k, v) :: r => merge_apps (pupsert k v into) r
+  end.
+
+Fixpoint merge_boxes (into from : list ((N * N) * option N)) : list ((N * N) * option N) :=
+  match from with
+  | [] => into
+  | (k, v) :: r => merge_boxes (pupsert k v into) r
+  end.
+
+Fixpoint merge_kv (into from : list (N * option bool)) : list (N * option bool) :=
+  match from with
+  | [] => into
+  | (k, v) :: r => merge_kv (aupsert k v into) r
+  end.
+
+(* storageDelta.applyChild *)
+Definition apply_child (p ch : sdelta) : sdelta :=
+  if sd_action ch =? 1
+  then mkSD (sd_action p) (merge_kv (sd_kv p) (sd_kv ch)) (sd_counts ch) (sd_max ch)
+  else mkSD (sd_action ch) (sd_kv ch) (sd_counts ch) (sd_max ch).
+
+Fixpoint merge_store (into from : list ((N * N) * sdelta)) : list ((N * N) * sdelta) :=
+  match from with
+  | [] => into
+  | (k, v) :: r => merge_store (pupsert k (match pfind k into with Some p => apply_child p v | None => v end) into) r
+  end.
+
 Definition merge_layer (p t : layer) : layer :=
   mkLayer (merge_accts (l_accts p) (l_accts t))
           (l_txids p ++ l_txids t)
@@ -363,7 +449,11 @@ Definition merge_layer (p t : layer) : layer :=
           ((l_txncount p + l_txncount t) mod 2 ^ 64)
           (fst (oadd 64 (l_fees p) (l_fees t)))
           (merge_assets (l_assets p) (l_assets t))
-          (merge_creat (l_creat p) (l_creat t)).
+          (merge_creat (l_creat p) (l_creat t))
+          (merge_apps (l_apps p) (l_apps t))
+          (merge_creat (l_acreat p) (l_acreat t))
+          (merge_store (l_store p) (l_store t))
+          (merge_boxes (l_boxes p) (l_boxes t)).
 
 Definition commit (c : cow) : cow :=
   match c_parents c with
@@ -486,3 +576,184 @@ Definition get_creator (c : cow) (i : N) : option N := layers_creator (c_top c :
 
 (* "addr not found in deltas": the Delete* functions insist on the account being in this cow *)
 Definition in_mods (c : cow) (a : N) : bool := match afind a (l_accts (c_top c)) with Some _ => true | None => false end.
+
+(* ------------------------------------------------------------------ application resources *)
+Definition base_appparams (b : base) (k : N * N) : delta appparams :=
+  match pfind k (b_apps b) with Some (Some p, _) => DSome p | _ => DNone end.
+Definition base_applocal (b : base) (k : N * N) : delta (N * N) :=
+  match pfind k (b_apps b) with Some (_, Some s) => DSome s | _ => DNone end.
+
+Fixpoint layers_appparams (ls : list layer) (b : base) (k : N * N) : delta appparams :=
+  match ls with
+  | [] => base_appparams b k
+  | l :: r => match pfind k (l_apps l) with
+              | Some res => match ar_params res with DNone => layers_appparams r b k | d => d end
+              | None => layers_appparams r b k
+              end
+  end.
+
+Fixpoint layers_applocal (ls : list layer) (b : base) (k : N * N) : delta (N * N) :=
+  match ls with
+  | [] => base_applocal b k
+  | l :: r => match pfind k (l_apps l) with
+              | Some res => match ar_local res with DNone => layers_applocal r b k | d => d end
+              | None => layers_applocal r b k
+              end
+  end.
+
+Definition appparams_delta (c : cow) (k : N * N) : delta appparams := layers_appparams (c_top c :: c_parents c) (c_base c) k.
+Definition applocal_delta (c : cow) (k : N * N) : delta (N * N) := layers_applocal (c_top c :: c_parents c) (c_base c) k.
+
+(* GetAppParams / GetAppLocalState (HasAppLocalState) *)
+Definition get_appparams (c : cow) (a i : N) : option appparams :=
+  match appparams_delta c (a, i) with DSome p => Some p | _ => None end.
+Definition get_applocal (c : cow) (a i : N) : option (N * N) :=
+  match applocal_delta c (a, i) with DSome s => Some s | _ => None end.
+
+Definition put_appparams_delta (c : cow) (a i : N) (d : delta appparams) : cow :=
+  set_top c (upd_apps (c_top c) (pupsert (a, i) (mkAppres d (applocal_delta c (a, i))) (l_apps (c_top c)))).
+Definition put_applocal_delta (c : cow) (a i : N) (d : delta (N * N)) : cow :=
+  set_top c (upd_apps (c_top c) (pupsert (a, i) (mkAppres (appparams_delta c (a, i)) d) (l_apps (c_top c)))).
+
+Definition set_app_creatable (c : cow) (i : N) (v : option N) : cow :=
+  set_top c (upd_acreat (c_top c) (aupsert i v (l_acreat (c_top c)))).
+
+Fixpoint base_app_creator_scan (l : list ((N * N) * (option appparams * option (N * N)))) (i : N) : option N :=
+  match l with
+  | [] => None
+  | ((a, j), (Some _, _)) :: r => if j =? i then Some a else base_app_creator_scan r i
+  | _ :: r => base_app_creator_scan r i
+  end.
+
+Fixpoint layers_app_creator (ls : list layer) (b : base) (i : N) : option N :=
+  match ls with
+  | [] => base_app_creator_scan (b_apps b) i
+  | l :: r => match afind i (l_acreat l) with
+              | Some v => v
+              | None => layers_app_creator r b i
+              end
+  end.
+
+(* roundCowState.getCreator (apps).  Asset and app indexes come from one counter, so an index
+   never names both; the Ctype test of the Go code is therefore not modelled. *)
+Definition get_app_creator (c : cow) (i : N) : option N := layers_app_creator (c_top c :: c_parents c) (c_base c) i.
+
+(* ------------------------------------------------------------------ storage deltas (appcow.go) *)
+(* roundCowBase.allocated *)
+Definition base_allocated (b : base) (a i : N) (global : bool) : bool :=
+  if global then match base_appparams b (a, i) with DSome _ => true | _ => false end
+  else match base_applocal b (a, i) with DSome _ => true | _ => false end.
+
+Fixpoint layers_allocated (ls : list layer) (b : base) (a i : N) (global : bool) : bool :=
+  match ls with
+  | [] => base_allocated b a i global
+  | l :: r => match pfind (skey a i global) (l_store l) with
+              | Some sd => if sd_action sd =? 2 then true else if sd_action sd =? 3 then false
+                           else layers_allocated r b a i global
+              | None => layers_allocated r b a i global
+              end
+  end.
+Definition allocated (c : cow) (a i : N) (global : bool) : bool :=
+  layers_allocated (c_top c :: c_parents c) (c_base c) a i global.
+
+(* TealKeyValue.ToStateSchema *)
+Definition kv_counts (kv : list (N * bool)) : N * N :=
+  fold_right (fun (e : N * bool) (acc : N * N) => if snd e then (fst acc, snd acc + 1) else (fst acc + 1, snd acc)) (0, 0) kv.
+
+Definition base_kv (b : base) (a i : N) (global : bool) : list (N * bool) :=
+  match pfind (skey a i global) (b_store b) with Some kv => kv | None => [] end.
+
+(* roundCowBase.getStorageLimits: from the creator's AppParams *)
+Definition base_limits (b : base) (i : N) (global : bool) : N * N :=
+  match base_app_creator_scan (b_apps b) i with
+  | None => (0, 0)
+  | Some cr => match base_appparams b (cr, i) with
+               | DSome p => if global then app_gs p else app_ls p
+               | _ => (0, 0)
+               end
+  end.
+
+(* getStorageCounts / getStorageLimits below a layer list (each level tests allocated first) *)
+Fixpoint layers_counts (ls : list layer) (b : base) (a i : N) (global : bool) : N * N :=
+  match ls with
+  | [] => if base_allocated b a i global then kv_counts (base_kv b a i global) else (0, 0)
+  | l :: r => if negb (layers_allocated ls b a i global) then (0, 0)
+              else match pfind (skey a i global) (l_store l) with
+                   | Some sd => sd_counts sd
+                   | None => layers_counts r b a i global
+                   end
+  end.
+
+Fixpoint layers_limits (ls : list layer) (b : base) (a i : N) (global : bool) : N * N :=
+  match ls with
+  | [] => base_limits b i global
+  | l :: r => if negb (layers_allocated ls b a i global) then (0, 0)
+              else match pfind (skey a i global) (l_store l) with
+                   | Some sd => sd_max sd
+                   | None => layers_limits r b a i global
+                   end
+  end.
+
+(* getKey: None = error ("cannot fetch key": not allocated at some level), Some None = no
+   such key, Some (Some isBytes) = present *)
+Fixpoint layers_getkey (ls : list layer) (b : base) (a i : N) (global : bool) (key : N) : option (option bool) :=
+  match ls with
+  | [] => if base_allocated b a i global then Some (afind key (base_kv b a i global)) else None
+  | l :: r => if negb (layers_allocated ls b a i global) then None
+              else match pfind (skey a i global) (l_store l) with
+                   | Some sd => match afind key (sd_kv sd) with
+                                | Some v => Some v
+                                | None => if sd_action sd =? 1 then layers_getkey r b a i global key else Some None
+                                end
+                   | None => layers_getkey r b a i global key
+                   end
+  end.
+Definition getkey (c : cow) (a i : N) (global : bool) (key : N) : option (option bool) :=
+  layers_getkey (c_top c :: c_parents c) (c_base c) a i global key.
+
+(* ensureStorageDelta: the record of the current cow, created from what the chain says *)
+Definition ensure_sd (c : cow) (a i : N) (global : bool) (action : N) : sdelta :=
+  match pfind (skey a i global) (l_store (c_top c)) with
+  | Some sd => sd
+  | None => mkSD action [] (layers_counts (c_top c :: c_parents c) (c_base c) a i global)
+                 (layers_limits (c_top c :: c_parents c) (c_base c) a i global)
+  end.
+
+Definition put_sd (c : cow) (a i : N) (global : bool) (sd : sdelta) : cow :=
+  set_top c (upd_store (c_top c) (pupsert (skey a i global) sd (l_store (c_top c)))).
+
+(* updateCounts: ++ / -- wrap *)
+Definition dec64 (n : N) : N := (n + 2 ^ 64 - 1) mod 2 ^ 64.
+Definition inc64 (n : N) : N := (n + 1) mod 2 ^ 64.
+Definition update_counts (cnt : N * N) (old new : option bool) : N * N :=
+  let c1 := match old with
+            | Some true => (fst cnt, dec64 (snd cnt))
+            | Some false => (dec64 (fst cnt), snd cnt)
+            | None => cnt
+            end in
+  match new with
+  | Some true => (fst c1, inc64 (snd c1))
+  | Some false => (inc64 (fst c1), snd c1)
+  | None => c1
+  end.
+Definition counts_ok (sd : sdelta) : bool :=
+  (fst (sd_counts sd) <=? fst (sd_max sd)) && (snd (sd_counts sd) <=? snd (sd_max sd)).
+
+(* ------------------------------------------------------------------ boxes (KvMods) *)
+Definition base_box (b : base) (k : N * N) : option N := pfind k (b_boxes b).
+Fixpoint layers_box (ls : list layer) (b : base) (k : N * N) : option N :=
+  match ls with
+  | [] => base_box b k
+  | l :: r => match pfind k (l_boxes l) with
+              | Some v => v
+              | None => layers_box r b k
+              end
+  end.
+(* kvGet of a box key: its size if it exists *)
+Definition get_box (c : cow) (app name : N) : option N := layers_box (c_top c :: c_parents c) (c_base c) (app, name).
+Definition put_box (c : cow) (app name : N) (v : option N) : cow :=
+  set_top c (upd_boxes (c_top c) (pupsert (app, name) v (l_boxes (c_top c)))).
+
+(* incTxnCount *)
+Definition inc_txncount (c : cow) : cow :=
+  set_top c (upd_txncount (c_top c) ((l_txncount (c_top c) + 1) mod 2 ^ 64)).
